@@ -1,4 +1,5 @@
 import Litep2pVerif.Proofs.Manager.Caps
+import Litep2pVerif.Proofs.Node.Wiring
 /-!
 # C06 — Connection caps: at most two per peer, configured limits never exceeded
 
@@ -179,3 +180,32 @@ example :
 #print axioms below_limit_accepts
 
 end Litep2pVerif.Props.C06
+
+/-! ## Wiring — what `Litep2p::new` hands over (coverage round `node`)
+
+Over the wiring model `Model/Node/Wiring.lean` (`Node.new c` = `Litep2p::new(ConfigBuilder…build())`), which is tied to
+the real `ConfigBuilder`/`Litep2p::new` by the `node` area: the adapter prints the ACTUAL registration record of a node built
+through the public API, the driver prints the model's, compared field by field on every run. -/
+namespace Litep2pVerif.Props.C06.Wiring
+open Litep2pVerif Litep2pVerif.Node
+
+/-- A configuration with every kind of protocol (used by the non-vacuity examples). -/
+def sample : Config :=
+  { keepAliveMs := some 600, limits := some (some 2, none), listen := [1, 2],
+    notif := [⟨"/n/a", 1024, "0102", ["/n/old"], 'a'⟩],
+    rr := [⟨"/r/a", 256, 800, ["/r/old"], none⟩, ⟨"/r/b", 64, 800, [], some 1⟩],
+    user := [⟨"/u/a", .varint none⟩], kad := [⟨[], none⟩], ping := some 1, identify := true, bitswap := true,
+    known := some [(0, [.listen 0, .closed, .quic, .wrongPeer 0, .noPeer 0])] }
+
+/-- The connection limits the manager enforces are exactly the configured ones (none if the user set none). -/
+theorem configured_limits_installed (c : Config) (w : Wired) (h : Node.new c = .ok w) :
+    w.limits = c.limits.getD (none, none) := by
+  obtain ⟨_, _, rfl⟩ := wire_ok h
+  rfl
+
+example : ∃ w, Node.new sample = .ok w ∧ w.limits = (some 2, none) := ⟨_, rfl, rfl⟩
+example : ∃ w, Node.new { sample with limits := none } = .ok w ∧ w.limits = (none, none) := ⟨_, rfl, rfl⟩
+
+end Litep2pVerif.Props.C06.Wiring
+
+#print axioms Litep2pVerif.Props.C06.Wiring.configured_limits_installed
